@@ -1,6 +1,7 @@
 package main
 
 import (
+	"crypto/sha256"
 	"fmt"
 	"go/ast"
 	"go/importer"
@@ -10,6 +11,7 @@ import (
 	"maps"
 	"os"
 	"path/filepath"
+	"slices"
 	"strings"
 	"sync"
 
@@ -132,12 +134,36 @@ func parseFiles(lpkg *listedPackage, dir string, paths []string, mainPatch bool)
 	return files, nil
 }
 
+// pkgCacheID returns the key of lpkg's entry in the build cache.
+//
+// A pkgCache holds what was learned about lpkg and about all of its dependencies,
+// such as their obfuscated names, which are derived from their own action IDs.
+// The action ID of lpkg alone does not cover those: it hashes the compiled output
+// of its direct imports only, which does not change when an indirect dependency
+// is edited inside a function body, or is rebuilt with other inputs such as build tags.
+// Hence the key covers the action IDs of lpkg and of all of its dependencies.
+func pkgCacheID(lpkg *listedPackage) [sha256.Size]byte {
+	lpkg.hasDep("") // fills lpkg.allDeps
+	hasher := sha256.New()
+	hasher.Write(lpkg.GarbleActionID[:])
+	for _, path := range slices.Sorted(maps.Keys(lpkg.allDeps)) {
+		if dep, ok := sharedCache.ListedPackages.get(path); ok {
+			hasher.Write(dep.GarbleActionID[:])
+		}
+	}
+	hasher.Write([]byte("\x00pkg-cache-v2\x00"))
+	var sum [sha256.Size]byte
+	hasher.Sum(sum[:0])
+	return sum
+}
+
 func loadPkgCache(lpkg *listedPackage, pkg *types.Package, files []*ast.File, info *types.Info, ssaPkg *ssa.Package) (pkgCache, error) {
 	fsCache, err := openCache()
 	if err != nil {
 		return pkgCache{}, err
 	}
-	filename, _, err := fsCache.GetFile(lpkg.GarbleActionID)
+	cacheID := pkgCacheID(lpkg)
+	filename, _, err := fsCache.GetFile(cacheID)
 	verifEvent("pkgcache-get", "pkg", lpkg.ImportPath, "key", lpkg.GarbleActionID, "hit", err == nil)
 	// Already in the cache; load it directly.
 	if err == nil {
@@ -187,7 +213,8 @@ func computePkgCache(fsCache *cache.Cache, lpkg *listedPackage, pkg *types.Packa
 		}
 		if err := func() error { // function literal for the deferred close
 			verifEvent("pkgcache-dep", "pkg", lpkg.ImportPath, "key", lpkg.GarbleActionID)
-			if filename, _, err := fsCache.GetFile(lpkg.GarbleActionID); err == nil {
+			cacheID := pkgCacheID(lpkg)
+			if filename, _, err := fsCache.GetFile(cacheID); err == nil {
 				verifEvent("pkgcache-dep-hit", "pkg", lpkg.ImportPath)
 				// Cache hit; merge its entries into computed. We decode into a
 				// fresh value rather than onto computed, as msgp replaces maps
@@ -247,7 +274,8 @@ func computePkgCache(fsCache *cache.Cache, lpkg *listedPackage, pkg *types.Packa
 	if err != nil {
 		return pkgCache{}, err
 	}
-	if err := fsCache.PutBytes(lpkg.GarbleActionID, data); err != nil {
+	cacheID := pkgCacheID(lpkg)
+	if err := fsCache.PutBytes(cacheID, data); err != nil {
 		return pkgCache{}, err
 	}
 	verifEvent("pkgcache-put", "pkg", lpkg.ImportPath, "key", lpkg.GarbleActionID, "names", len(computed.ReflectObjectNames), "apis", len(computed.ReflectAPIs))
